@@ -156,14 +156,8 @@ Lemma step_Pb_sound cr cc tx o : step_Pb cr cc tx o = true -> step_P cr cc tx o.
 Proof.
   unfold step_Pb, step_P. rewrite !andb_true_iff.
   intros [[[[[H1 H2] H3] H4] H5] H6].
-  repeat split.
-  - intro Hk. rewrite Hk in H1. simpl in H1. apply unchanged_b_sound in H1.
-    destruct H1 as (?&?&?&?&?&?). auto.
-  - intro Hk. rewrite Hk in H1. simpl in H1. apply unchanged_b_sound in H1. tauto.
-  - intro Hk. rewrite Hk in H1. simpl in H1. apply unchanged_b_sound in H1. tauto.
-  - intro Hk. rewrite Hk in H1. simpl in H1. apply unchanged_b_sound in H1. tauto.
-  - intro Hk. rewrite Hk in H1. simpl in H1. apply unchanged_b_sound in H1. tauto.
-  - intro Hk. rewrite Hk in H1. simpl in H1. apply unchanged_b_sound in H1. tauto.
+  split; [|split; [|split; [|split; [|split; [|split]]]]].
+  - intro Hk. rewrite Hk in H1. simpl in H1. apply unchanged_b_sound in H1. exact H1.
   - intro Hc. apply orb_true_iff in H2 as [H2|H2].
     + rewrite !andb_true_iff, Nat.eqb_eq in H2. destruct H2 as [[Ha Hb] Hd].
       apply list_eqb_eq in Hb. destruct Hc as [Hc|[Hc|Hc]]; try contradiction.
